@@ -442,6 +442,9 @@ func verifyAndFillConfig(cfg *ResponseConfig, nowMS int) error {
 	if cfg.SegTimelineNrFlag && cfg.SegTimelineFlag {
 		return fmt.Errorf("SegmentTimelineTime and SegmentTimelineNr cannot be used at same time")
 	}
+	if math.IsInf(cfg.AvailabilityTimeOffsetS, +1) && (cfg.SegTimelineFlag || cfg.SegTimelineNrFlag) {
+		return ErrAtoInfTimeline // a bad request, not a failure while the MPD is generated
+	}
 	if cfg.TimeSubsRegion < 0 || cfg.TimeSubsRegion > 1 {
 		return fmt.Errorf("timesubsreg number must be 0 or 1")
 	}
